@@ -198,6 +198,33 @@ def nat2_files(P):
     return P["nat2"]
 
 
+def chain_states():
+    """States of OTHER checks (stage-level evaluations on different gene databases that share allele names and
+    coordinates but differ in strand / structure); used to test that an evaluation does not depend on what the
+    process handled before."""
+    A = worlds.WorldSpec(("+", "-"), True, False, 0, "richd")
+    B = worlds.WorldSpec(("-", "+"), True, False, 0, "richd")      # same offsets and names, opposite strand
+    fus = (("1", "1.001"), ("12#1", "12#2.002"))
+    L = [
+        ("mc.props.c04", (A, "hg19", fus, (("set", None, None, 10),), 1)),
+        ("mc.props.c04", (B, "hg19", fus, (("set", None, None, 10),), 1)),
+        ("mc.props.c04", (("toy",), "hg19", (("1", "1.001"), ("4#3", "4#3.001")), (), 1)),
+        ("mc.props.c02", (A, "hg19", ("1", "13"), ("1", "13"), (), 0.1)),
+        ("mc.props.c02", (B, "hg19", ("1", "13"), ("1", "13"), (), 0.1)),
+        ("mc.props.c13", ("table", A, fus, (), 0.0)),
+        ("mc.props.c13", ("table", ("toy",), (("1", "1.001"), ("2", "2.001")), (), 0.0)),
+    ]
+    out = []
+    for mod, st in L:
+        if mod.endswith("c04") and st[3]:
+            # an unplanted silent variant in a region the fused allele lacks on one strand only
+            g = worlds.gene_of(st[0], "hg19")
+            m = sorted(x for x in g.mutations if g.mutations[x][0] is None and g.region_at(x[0])[1] == "i1")[0]
+            st = (st[0], st[1], st[2], (("set", m[0], m[1], 10),), st[4])
+        out.append((mod, st))
+    return out
+
+
 CLASSES = ("Gene", "MajorAllele", "MinorAllele", "CNConfig", "CNSolution", "SolvedAllele", "MajorSolution", "MinorSolution", "Coverage")
 SKIP = {("Coverage", "dump"), ("MinorSolution", "set_diplotype")}
 
@@ -454,6 +481,13 @@ class C14(Check):
                 if self.tier == "quick" and s == 1 and k not in (0, 5):
                     continue
                 yield ("seed", k, s)
+        # evaluations of other checks chained in one fresh process, in every order of two, and alone
+        n = len(chain_states())
+        for j in range(n):
+            yield ("chain", None, j)
+            for i in range(n):
+                if i != j and (self.tier == "thorough" or (i + j + self.seed) % 2 == 0):
+                    yield ("chain", i, j)
         # systematic candidate sets: toy tables (planted pair + one deviation); the candidates are what the major
         # stage itself proposes for a menu of structures
         from .c02 import structures
@@ -521,7 +555,37 @@ class C14(Check):
             return self._eval_seed(st)
         if st[0] == "cands2":
             return self._eval_cands2(st)
+        if st[0] == "chain":
+            return self._eval_chain(st)
         return self._eval_cands(st)
+
+    def _eval_chain(self, st):
+        import base64, pickle
+        _, i, j = st
+        L = chain_states()
+        seq = ([L[i]] if i is not None else []) + [L[j]]
+        blob = base64.b64encode(pickle.dumps(seq)).decode()
+        script = f"""
+import sys, pickle, base64, importlib
+sys.path.insert(0, {os.path.dirname(os.path.dirname(os.path.dirname(os.path.abspath(__file__))))!r})
+from mc import repo; repo.setup()
+seq = pickle.loads(base64.b64decode({blob!r}))
+last = None
+for mod, st in seq:
+    chk = importlib.import_module(mod).CHECK("quick", 0)
+    o = chk.evaluate(st)
+    last = (repr(o.key), sorted(s for s, _ in o.violations), repr(o.note)[:400])
+print("RESULT", repr(last))
+"""
+        env = dict(os.environ, PYTHONHASHSEED="0", VERIF_REPO=repo.REPO)
+        r = subprocess.run([sys.executable, "-W", "ignore", "-c", script], capture_output=True, text=True, env=env)
+        line = [l for l in r.stdout.splitlines() if l.startswith("RESULT")]
+        v = []
+        if r.returncode != 0 or not line:
+            v.append(("chain/run-failed", r.stderr[-400:]))
+        return Outcome(v, key=("chain", j, line[0] if line else None), nontrivial=True,
+                       note={"after": None if i is None else L[i][0] + str(L[i][1])[:80], "state": L[j][0] + str(L[j][1])[:120],
+                             "result": line[0][:200] if line else None, "i": i, "j": j})
 
     def _eval_cands2(self, st):
         from aldy.profile import Profile
@@ -624,6 +688,14 @@ class C14(Check):
                         continue
                     if got_res != want_res or got_rows != want_rows:
                         out.append(("history/multi-gene-differs-from-single-runs", f"{multi}: {single[multi]} vs A {single['A']} + B {single['B']}", ("hist", (("genotype", multi),))))
+        # chained evaluations: the result of a state must not depend on what the process handled before
+        solo = {}
+        for st, o in results:
+            if st[0] == "chain" and st[1] is None:
+                solo[st[2]] = o.key
+        for st, o in results:
+            if st[0] == "chain" and st[1] is not None and st[2] in solo and o.key != solo[st[2]]:
+                out.append(("chain/result-depends-on-earlier-evaluation", f"{o.note['state']} evaluated after {o.note['after']}: {o.key[2]} vs alone {solo[st[2]][2]}", st))
         # hash seeds
         seeds = collections.defaultdict(dict)
         for st, o in results:
